@@ -40,6 +40,7 @@ FIXED = [
  ("fix: `*` in a file pattern", ["C20"], "`*.txt` did not select `a.txt.txt`, `a*b` did not select `abxb` (first-occurrence search)"),
  ("fix: ParsePath no longer prints", ["C18"], "`vore -com .. -files a.txt -json` printed `[{entryType:2 value:a.txt}]` before the JSON document"),
  ("fix: -json-file / -formatted-json-file open", ["C18"], "`vore .. -json-file out.json` panicked: truncate out.json: invalid argument (file opened read-only)"),
+ ("fix: concurrent Compile calls no longer race", ["C19"], "two concurrent Compile calls of sources with regex groups: unsynchronised writes to the package-level group counter; with one preemption a Compile fails with \"identifier '_2' is not defined\""),
 ]
 
 FINDINGS = [
